@@ -28,6 +28,12 @@ import RvModel.Hand.StickConj
     sbstat.from_data      L<n> xs               -> L<m> counts L<m> s_0 c_0 … <n>      StickBreakingDiscreteSuffStat::from(&[usize])
     sbd.ln_f_stat         L<k> breaks L<m> counts -> f64 | E:NeedsRng     StickBreakingDiscrete over the pushed breaks, ln_f_stat of the statistic
                                                  (m <= k required: more counts than breaks would make the sequence DRAW breaks)
+    FRESH seeded sequences (nothing realised when the op starts).  `L<k> breaks` = the first k breaks of
+    `StickSequence::new(UnitPowerLaw(alpha), Some(seed))` (harness op `stick.breaks <alpha> <seed> <k>`): the harness ignores them and
+    lets the real sequence draw, the model replays them as the break stream; a model that needs more than k breaks answers E:NeedsRng.
+    sbd.ln_f_stat_fresh   <alpha> <seed> L<k> breaks L<m> counts        -> f64      ln_f_stat is the FIRST call on the object
+    sbd.sum_ln_f_fresh    <alpha> <seed> L<k> breaks L<n> xs            -> f64      sum of ln_f(x) in order, on another fresh object
+    sbd.ln_f_stat_states  <alpha> <seed> L<k> breaks L<m> counts <ext>  -> f64 f64 f64   ln_f_stat fresh; again; after ln_f(&ext)
 -/
 namespace HandDispatchC05S
 open GenDispatch Wire Hand Hand.StickConj
@@ -111,7 +117,26 @@ def tableC05S : List (String × Rd String) := [
       let _ ← Wire.next; let bs ← rdL rdF; let counts ← rdL rdN
       if counts.length > bs.length then pure "E:NeedsRng" else
       let s := bs.foldl (fun (s : Stick.S Float) p => Stick.pushBreak p s) Stick.init
-      pure (wrF (lnFStatOfWeights (Stick.weightsOf s.ccdf) counts)))
+      pure (wrF (lnFStatOfWeights (Stick.weightsOf s.ccdf) counts))),
+  ("sbd.ln_f_stat_fresh", do
+      let _ ← Wire.next; let _alpha ← rdF; let _seed ← rdN; let bs ← rdL rdF; let counts ← rdL rdN
+      if counts.length > bs.length then pure "E:NeedsRng" else
+      let breaks : Nat → Float := fun i => bs.getD i RealLike.nan
+      pure (wrF (sbdLnFStat breaks Stick.init counts).1)),
+  ("sbd.sum_ln_f_fresh", do
+      let _ ← Wire.next; let _alpha ← rdF; let _seed ← rdN; let bs ← rdL rdF; let xs ← rdL rdN
+      if xs.any (fun x => x + 1 > bs.length) then pure "E:NeedsRng" else
+      let breaks : Nat → Float := fun i => bs.getD i RealLike.nan
+      pure (wrF (sbdSumLnF breaks Stick.init xs).1)),
+  ("sbd.ln_f_stat_states", do
+      let _ ← Wire.next; let _alpha ← rdF; let _seed ← rdN; let bs ← rdL rdF; let counts ← rdL rdN; let ext ← rdN
+      if counts.length > bs.length || ext + 1 > bs.length then pure "E:NeedsRng" else
+      let breaks : Nat → Float := fun i => bs.getD i RealLike.nan
+      let r1 := sbdLnFStat breaks Stick.init counts
+      let r2 := sbdLnFStat breaks r1.2 counts
+      let r3 := sbdLnF breaks r2.2 ext
+      let r4 := sbdLnFStat breaks r3.2 counts
+      pure (wrF r1.1 ++ " " ++ wrF r2.1 ++ " " ++ wrF r4.1))
 ]
 
 end HandDispatchC05S
